@@ -2,8 +2,9 @@
    kill can interrupt.  Executable definitions only.
 
    Code modelled (as it is in /repo now):
-     server/options.go WithToken           - os.Stat; absent: ioutil.WriteFile(token, uid);
-                                             present: ioutil.ReadFile, adopt the content
+     server/options.go WithToken           - ioutil.ReadFile; a file holding a well-formed id
+                                             (xid.FromString) is adopted; absent or anything
+                                             else: ioutil.WriteFile(token.tmp, uid); os.Rename
      services/ssh/storage.go PrivateKey    - Get "private-key" / generateKey / Set
      services/{ftp,smtp,ldap}/storage.go Certificate
                                            - Get "pemkey" / generateKey / Set, then
@@ -11,17 +12,21 @@
      listener/agent/storage.go KeyPair     - Get "key" / GenerateKeypair / Set
      storage/storage.go                    - one badger transaction per Get / Set
 
-   Disk: the token file, a temporary file next to it (used only by the repaired
-   WithToken, [fixed = true]) and the key-value store.  A badger Set is atomic; a file
+   Disk: the token file, the temporary file token.tmp next to it and the key-value store.  A badger Set is atomic; a file
    write is not: a kill leaves the file created-and-empty or holding any prefix.  A start
    is modelled by the list of on-disk states it passes through (one per atomic
    mutation); the states a kill can leave are exactly the initial state and the members
    of that list.  Generator outputs (xid.New, rsa.GenerateKey, x509.CreateCertificate,
    libdisco.GenerateKeypair) are inputs [fresh].
 
-   Not modelled: errors of the filesystem and of badger (os.Stat / ReadFile failing for
-   another reason than absence make WithToken return the error; a failing WriteFile is
-   ignored, a failing Set logged); the behaviour on stored values their library rejects
+   Formerly (before /repo commit "fix: WithToken writes the token atomically ...") WithToken
+   wrote the token file in place and adopted whatever an existing file held, so a kill
+   during the first write left an empty or cut-short token that was kept forever; such
+   legacy files are initial states here and are healed (C18_token_crash_safe).
+
+   Not modelled: errors of the filesystem and of badger (ReadFile failing for another
+   reason than absence makes WithToken return the error; after a failing WriteFile the
+   rename is skipped, a failing Set is logged); the behaviour on stored values their library rejects
    (makePrivateKey returns nil, KeyPair slices key[64:], generateCert dereferences a nil
    PEM block) - excluded by the invariant [kv_ok] of Proofs.v, which every crash state
    satisfies; the order in which Run instantiates services (Go map order: the
@@ -79,23 +84,14 @@ Fixpoint last_or {A} (l : list A) (d : A) : A :=
   | x :: r => last_or r x
   end.
 
-(* WithToken as it is: an existing file is adopted whatever it holds *)
-Definition token_cur (d : disk) (uid : bytes) : list disk * bytes :=
-  match d_token d with
-  | None => (map (fun p => set_token d (Some p)) (prefixes uid), uid)
-  | Some b => ([], b)
-  end.
-
-(* WithToken repaired (fixes/C18-token-atomic-write.patch): a file that does not hold a
-   well-formed id counts as absent; the id is written to token.tmp and renamed *)
-Definition token_fix (d : disk) (uid : bytes) : list disk * bytes :=
+(* WithToken: a file that does not hold a well-formed id counts as absent; the id is
+   written to token.tmp (created/truncated, then the bytes arrive) and renamed *)
+Definition token_step (d : disk) (uid : bytes) : list disk * bytes :=
   let write := (map (fun p => set_tmp d (Some p)) (prefixes uid) ++ [mkDisk (Some uid) None (d_kv d)], uid) in
   match d_token d with
   | None => write
   | Some b => if token_wf b then ([], b) else write
   end.
-
-Definition token_step (fixed : bool) := if fixed then token_fix else token_cur.
 
 (* ---- key-value items ---- *)
 Record fresh := mkFresh {
@@ -142,31 +138,28 @@ Fixpoint run_svcs (f : fresh) (d : disk) (cfg : list svc) : list disk * list (it
 Record identity := mkId { id_token : bytes; id_items : list (item * bytes) }.
 
 (* one start: (on-disk states passed through, identity in use once it has completed) *)
-Definition start (fixed : bool) (f : fresh) (d : disk) (cfg : list svc) : list disk * identity :=
-  let '(t0, tok) := token_step fixed d (f_token f) in
+Definition start (f : fresh) (d : disk) (cfg : list svc) : list disk * identity :=
+  let '(t0, tok) := token_step d (f_token f) in
   let '(t1, its) := run_svcs f (last_or t0 d) cfg in
   (t0 ++ t1, mkId tok its).
 
 (* every on-disk state a kill during (or before, or after) that start can leave *)
-Definition crash_states (fixed : bool) (f : fresh) (d : disk) (cfg : list svc) : list disk :=
-  d :: fst (start fixed f d cfg).
+Definition crash_states (f : fresh) (d : disk) (cfg : list svc) : list disk :=
+  d :: fst (start f d cfg).
 
-Definition after (fixed : bool) (f : fresh) (d : disk) (cfg : list svc) : disk :=
-  last_or (fst (start fixed f d cfg)) d.
-Definition ident (fixed : bool) (f : fresh) (d : disk) (cfg : list svc) : identity :=
-  snd (start fixed f d cfg).
+Definition after (f : fresh) (d : disk) (cfg : list svc) : disk :=
+  last_or (fst (start f d cfg)) d.
+Definition ident (f : fresh) (d : disk) (cfg : list svc) : identity :=
+  snd (start f d cfg).
 
 (* a history of completed starts *)
-Fixpoint runs (fixed : bool) (d : disk) (h : list (fresh * list svc)) : list identity :=
+Fixpoint runs (d : disk) (h : list (fresh * list svc)) : list identity :=
   match h with
   | [] => []
-  | (f, cfg) :: r => ident fixed f d cfg :: runs fixed (after fixed f d cfg) r
+  | (f, cfg) :: r => ident f d cfg :: runs (after f d cfg) r
   end.
-Fixpoint after_all (fixed : bool) (d : disk) (h : list (fresh * list svc)) : disk :=
+Fixpoint after_all (d : disk) (h : list (fresh * list svc)) : disk :=
   match h with
   | [] => d
-  | (f, cfg) :: r => after_all fixed (after fixed f d cfg) r
+  | (f, cfg) :: r => after_all (after f d cfg) r
   end.
-
-(* which variant /repo contains now; becomes [true] when the patch is applied *)
-Definition repo_fixed : bool := false.
